@@ -58,6 +58,7 @@ type solver struct {
 	timeout int // ms per query
 	seq     int
 	dead    bool
+	curTO   int
 	log     io.Writer // optional SMT transcript
 }
 
@@ -109,6 +110,15 @@ func (s *solver) resetSession() {
 	s.emitted = map[*term]bool{}
 	s.ufDone = map[string]bool{}
 	s.send("(reset)\n(set-option :timeout " + strconv.Itoa(s.timeout) + ")\n")
+	s.curTO = s.timeout
+}
+
+// setTimeout changes the per-query timeout of the session.
+func (s *solver) setTimeout(ms int) {
+	if ms != s.curTO {
+		s.send("(set-option :timeout " + strconv.Itoa(ms) + ")\n")
+		s.curTO = ms
+	}
 }
 
 func (s *solver) define(t *term) {
@@ -207,26 +217,24 @@ func (s *solver) check(extra *term, modelVars []*term) (satResult, map[string]ui
 	return res, model
 }
 
+// parseSat reads the verdict.  An (error …) line *before* the verdict makes
+// the answer inconclusive (the solver may have dropped an assertion); errors
+// after it come from get-value on a non-sat state and are irrelevant.
 func parseSat(lines []string) satResult {
-	res := resUnknown
-	seen := false
 	for _, l := range lines {
 		if strings.HasPrefix(l, "(error") {
 			return resError
 		}
-		if seen {
-			continue
-		}
 		switch l {
 		case "sat":
-			res, seen = resSat, true
+			return resSat
 		case "unsat":
-			res, seen = resUnsat, true
+			return resUnsat
 		case "unknown", "timeout":
-			res, seen = resUnknown, true
+			return resUnknown
 		}
 	}
-	return res
+	return resUnknown
 }
 
 // parseModel reads ((|a| #x00ff) (|b| true) ...) into name -> bits.
